@@ -80,7 +80,7 @@ macro_rules! g_debug {
             unwind: 5000,
             prop: |inp| {
                 use core::fmt::Write;
-                let valid = $valid;
+                let valid = generic::as_valid($valid);
                 vassume!(valid(&inp[..]));
                 let mut a = core::mem::MaybeUninit::<$ty>::uninit();
                 generic::fill(&mut a, &inp[..]);
@@ -182,8 +182,8 @@ macro_rules! g_zeroize {
             bytes: core::mem::size_of::<$ty>(),
             unwind: 5000,
             prop: |inp| {
-                let valid = $valid;
-                let exempt = $exempt;
+                let valid = generic::as_valid($valid);
+                let exempt = generic::as_idx($exempt);
                 vassume!(valid(&inp[..]));
                 let mut a = core::mem::MaybeUninit::<$ty>::uninit();
                 generic::fill(&mut a, &inp[..]);
@@ -216,7 +216,7 @@ macro_rules! g_frame {
             prop: |inp| {
                 use cipher::{BlockCipherDecrypt, BlockCipherEncrypt};
                 const S: usize = core::mem::size_of::<$ty>();
-                let valid = $valid;
+                let valid = generic::as_valid($valid);
                 vassume!(valid(&inp[..S]));
                 let mut a = core::mem::MaybeUninit::<$ty>::uninit();
                 generic::fill(&mut a, &inp[..S]);
@@ -250,7 +250,7 @@ macro_rules! g_blocks {
             prop: |inp| {
                 use cipher::{BlockCipherDecrypt, BlockCipherEncrypt, Block};
                 const S: usize = core::mem::size_of::<$ty>();
-                let valid = $valid;
+                let valid = generic::as_valid($valid);
                 vassume!(valid(&inp[..S]));
                 let mut a = core::mem::MaybeUninit::<$ty>::uninit();
                 generic::fill(&mut a, &inp[..S]);
@@ -301,8 +301,33 @@ macro_rules! g_keylen {
             prop: |inp| {
                 let len = take_u16(&inp[..], $max) as usize;
                 vassume!(len <= $max);
-                let accepted = $accepted;
+                let accepted = generic::as_idx($accepted);
                 let r = <$ty as cipher::KeyInit>::new_from_slice(&inp[..len]);
+                Some(r.is_ok() == accepted(len))
+            }
+        }
+    };
+}
+
+/// C11 length contract for types that use the DEFAULT KeyInit::new_from_slice (slice -> fixed array, then Self::new): the
+/// verdict depends on the length only, so the length is symbolic (0..=MAX) and the key CONTENT is the constant zero
+/// string -- the key schedule that runs on the accepting path is then a concrete computation instead of a second copy of
+/// the conformance query (ARIA, IDEA, SM4, Kuznyechik, RC5 ... constructors on a symbolic key: 200-900 s each, several out
+/// of memory).  A content-dependent rejection would be outside what this harness sees; none of these types overrides
+/// new_from_slice (the generator emits the symbolic-content form for every type that does).
+#[allow(unused_macros)]
+macro_rules! g_keylen0 {
+    ($name:ident, $ty:ty, $max:expr, $accepted:expr) => {
+        verif_harness! {
+            name: $name,
+            bytes: 2,
+            unwind: 400,
+            prop: |inp| {
+                let len = take_u16(&inp[..], 0) as usize;
+                vassume!(len <= $max);
+                let accepted = generic::as_idx($accepted);
+                let buf = [0u8; $max];
+                let r = <$ty as cipher::KeyInit>::new_from_slice(&buf[..len]);
                 Some(r.is_ok() == accepted(len))
             }
         }
@@ -321,7 +346,7 @@ macro_rules! g_new_eq_slice {
             prop: |inp| {
                 let key: [u8; $klen] = *inp;
                 // padding bytes of moved values are nondeterministic under Kani: compare the non-exempt (field) bytes
-                let exempt = $exempt;
+                let exempt = generic::as_idx($exempt);
                 let a = core::mem::MaybeUninit::new(<$ty as cipher::KeyInit>::new(&key.into()));
                 let b = match <$ty as cipher::KeyInit>::new_from_slice(&key[..]) {
                     Ok(c) => core::mem::MaybeUninit::new(c),
@@ -366,7 +391,7 @@ macro_rules! g_frame1 {
             $(stubs: [$(($o, $r)),*],)?
             prop: |inp| {
                 const S: usize = core::mem::size_of::<$ty>();
-                let valid = $valid;
+                let valid = generic::as_valid($valid);
                 vassume!(valid(&inp[..S]));
                 let mut a = core::mem::MaybeUninit::<$ty>::uninit();
                 generic::fill(&mut a, &inp[..S]);
@@ -405,7 +430,7 @@ macro_rules! g_total {
             unwind: 5000,
             prop: |inp| {
                 const S: usize = core::mem::size_of::<$ty>();
-                let valid = $valid;
+                let valid = generic::as_valid($valid);
                 vassume!(valid(&inp[..S]));
                 let mut a = core::mem::MaybeUninit::<$ty>::uninit();
                 generic::fill(&mut a, &inp[..S]);
@@ -437,7 +462,7 @@ macro_rules! g_mixed {
             $(stubs: [$(($o, $r)),*],)?
             prop: |inp| {
                 const S: usize = core::mem::size_of::<$ty>();
-                let valid = $valid;
+                let valid = generic::as_valid($valid);
                 vassume!(valid(&inp[..S]));
                 let mut a = core::mem::MaybeUninit::<$ty>::uninit();
                 generic::fill(&mut a, &inp[..S]);
@@ -491,7 +516,7 @@ macro_rules! g_ctor_history {
                 let k1: [u8; $klen] = take(&inp[..], 0);
                 let k2: [u8; $klen] = take(&inp[..], $klen);
                 let k3: [u8; $klen] = take(&inp[..], 2 * $klen);
-                let exempt = $exempt;
+                let exempt = generic::as_idx($exempt);
                 // history: new(k2) [fresh process]; new(k1); new(k2); new(k3); new(k1).  The two constructions from k2
                 // must agree (the first is the fresh-process truth), and so must the two from k1 (one directly after
                 // k2, one after an unrelated third key has been through: a one-entry cache keyed on too little shows here)
@@ -537,7 +562,7 @@ macro_rules! g_blocks1 {
                 use cipher::Block;
                 const S: usize = core::mem::size_of::<$ty>();
                 const NB: usize = $nb;
-                let valid = $valid;
+                let valid = generic::as_valid($valid);
                 vassume!(valid(&inp[..S]));
                 let mut a = core::mem::MaybeUninit::<$ty>::uninit();
                 generic::fill(&mut a, &inp[..S]);
@@ -617,7 +642,7 @@ macro_rules! g_blocks_part {
                 use cipher::Block;
                 const S: usize = core::mem::size_of::<$ty>();
                 const NB: usize = $nb;
-                let valid = $valid;
+                let valid = generic::as_valid($valid);
                 vassume!(valid(&inp[..S]));
                 let mut a = core::mem::MaybeUninit::<$ty>::uninit();
                 generic::fill(&mut a, &inp[..S]);
@@ -742,7 +767,7 @@ macro_rules! g_mixed_half {
             $(stubs: [$(($o, $r)),*],)?
             prop: |inp| {
                 const S: usize = core::mem::size_of::<$ty>();
-                let valid = $valid;
+                let valid = generic::as_valid($valid);
                 vassume!(valid(&inp[..S]));
                 let mut a = core::mem::MaybeUninit::<$ty>::uninit();
                 generic::fill(&mut a, &inp[..S]);
@@ -768,6 +793,14 @@ macro_rules! g_mixed_half {
     };
 }
 
+/// Give a closure passed as a macro argument its signature (so that `|b| ...` needs no annotations) WITHOUT turning it
+/// into a function pointer: CBMC treats a call through a `fn` pointer as a choice among all type-compatible functions.
+pub fn as_valid<F: Fn(&[u8]) -> bool>(f: F) -> F {
+    f
+}
+pub fn as_idx<F: Fn(usize) -> bool>(f: F) -> F {
+    f
+}
 pub fn always(_: &[u8]) -> bool {
     true
 }
